@@ -1,5 +1,5 @@
 (* Go semantics vocabulary for the GENERATED file gen/Pure.v (tools/srcgen/pure.go translates a whitelist of
-   small pure Go functions of /repo into Gallina on every check run; see Helpers/PureTie.v for the theorems
+   small pure Go functions of /repo into Gallina on every check run; see Helpers/PureTie_*.v for the theorems
    that tie the regenerated definitions to the hand-written model).
 
    Conventions of the translation:
@@ -81,6 +81,14 @@ Definition go_make_bytes (n : Z) : option bytes :=
 Definition go_set_index (s : bytes) (i : Z) (v : N) : option bytes :=
   if ((0 <=? i) && (i <? go_len s))%Z
   then Some (firstn (Z.to_nat i) s ++ n2b v :: skipn (S (Z.to_nat i)) s) else None.
+(* append(a, b...): "appends zero or more values to a slice and returns the resulting slice".  VALUE of the result
+   only.  Whether the result shares the underlying array of a ("if the capacity of s is not large enough ... append
+   allocates a new, sufficiently large underlying array; otherwise, append re-uses the underlying array"), i.e. what
+   other slices of that array observe afterwards, is NOT modelled here: that is SliceModel / gen/AppendSites.v (C13). *)
+Definition go_append (a b : bytes) : bytes := a ++ b.
+(* big.NewInt(k).SetUint64(n).Bytes(): "Bytes returns the absolute value of x as a big-endian byte slice" -- minimal
+   length, empty for 0: N_to_be of Base/Bytes.v (be_to_N_to_be; the model's u64_bytes) *)
+Definition go_big_uint64_bytes (n : N) : bytes := N_to_be n.
 (* bytes.Equal: "reports whether a and b are the same length and contain the same bytes. A nil argument is
    equivalent to an empty slice." *)
 Definition bytes_equal (a b : bytes) : bool := beqb a b.
